@@ -20,6 +20,7 @@ type c19Obj struct {
 	t     *time.Time
 	grp   *string
 	owner *string
+	uk    *string
 }
 
 type sliceIter struct {
@@ -73,7 +74,7 @@ func newC19Store(w *qx.World, r *core.Rand) *objectz.ObjectStore[*c19Obj] {
 	for _, id := range w.Ids(qx.Things) {
 		v := w.Rows[qx.Things][id].V
 		objs = append(objs, &c19Obj{id: id, s: ptr[string](v["s"]), ism: ptr[int64](v["ism"]), ibig: ptr[int64](v["ibig"]), flt: ptr[float64](v["flt"]), b: ptr[bool](v["b"]),
-			t: ptr[time.Time](v["t"]), grp: ptr[string](v["grp"]), owner: ptr[string](v["owner"])})
+			t: ptr[time.Time](v["t"]), grp: ptr[string](v["grp"]), owner: ptr[string](v["owner"]), uk: ptr[string](v["uk"])})
 	}
 	os := objectz.NewObjectStore(func() objectz.ObjectIterator[*c19Obj] {
 		return &sliceIter{objs: core.Shuffle(r, objs)}
@@ -87,6 +88,7 @@ func newC19Store(w *qx.World, r *core.Rand) *objectz.ObjectStore[*c19Obj] {
 	os.AddDatetimeSymbol("t", func(o *c19Obj) *time.Time { return o.t })
 	os.AddStringSymbol("grp", func(o *c19Obj) *string { return o.grp })
 	os.AddStringSymbol("owner", func(o *c19Obj) *string { return o.owner })
+	os.AddStringSymbol("uk", func(o *c19Obj) *string { return o.uk })
 	return os
 }
 
